@@ -90,6 +90,46 @@ def randomizer_jobs(ctx, prop, per_worker):
     return jobs
 
 
+def unlucky_jobs(ctx, prop, jobs, count):
+    """'every sequence of random edge-pair choices' includes arbitrarily long runs of unlucky
+    draws: take scripted behaviours and put thousands of invalid picks (two edges that share a
+    vertex - a stutter of the L2 machine, RewireImpl!Pick with BadPicks) in front of their picks.
+    A re-pick loop that gives up, or proceeds with the last rejected pair, shows only then."""
+    rng = random.Random(ctx.seed + 404)
+    out = []
+    cands = [j for j in jobs if j.get("script") and j["fn"] != "randomizer_bin_und"
+             and not rc.VARIANTS[j["fn"]][4]]
+    rng.shuffle(cands)
+    for j in cands:
+        if len(out) >= count:
+            break
+        fn = j["fn"]
+        dr, conn, latt, mask, signed = rc.VARIANTS[fn]
+        A = np.array(j["R0"])
+        if dr:
+            ii, jj = np.where(A)
+        elif mask:
+            ii, jj = np.where(np.triu(A, 1))
+        else:
+            ii, jj = np.where(np.tril(A))
+        k = len(ii)
+        bad = [(x + 1, y + 1) for x in range(k) for y in range(k) if x != y and
+               len({ii[x], jj[x], ii[y], jj[y]}) < 4]
+        if not bad:
+            continue
+        # only before the FIRST pick: the edge list (hence which pairs are invalid) changes later
+        first = next((t for t, it in enumerate(j["script"]) if it[0] == "p"), None)
+        if first is None:
+            continue
+        nbad = rng.choice([300, 2500, 6000])
+        pref = [["p", *rng.choice(bad)] for _ in range(nbad)]
+        j2 = dict(j)
+        j2["script"] = j["script"][:first] + pref + j["script"][first:]
+        j2["src"] = "model-behaviour+unlucky-prefix"
+        out.append(j2)
+    return out
+
+
 def random_jobs(ctx, prop, fns, count):
     rng = random.Random(ctx.seed * 7919 + 1)
     jobs = []
@@ -149,6 +189,7 @@ def run_family(ctx, prop, fns, gens, mc_cfgs, extra_mc=()):
     jobs = behaviour_jobs(ctx, prop, gens, 80 if ctx.quick else 800)
     if prop == "C01":
         jobs += randomizer_jobs(ctx, prop, 40 if ctx.quick else 400)
+    jobs += unlucky_jobs(ctx, prop, jobs, 60 if ctx.quick else 400)
     nb = len(jobs)
     jobs += random_jobs(ctx, prop, fns, 270 if ctx.quick else 4500)
     recs = pool.run_jobs("harness.props.c01", jobs, limit=10.0)
@@ -182,7 +223,7 @@ def run_family(ctx, prop, fns, gens, mc_cfgs, extra_mc=()):
 def run(ctx):
     return run_family(ctx, PROP, FNS, GEN, MC_QUICK if ctx.quick else MC_THOROUGH,
                       extra_mc=[("MC_PermLemma.tla", "MC_PermLemma.cfg"),
-                                ("MC_Randomizer.tla", "MC_Randomizer_5.cfg" if ctx.quick else "MC_Randomizer_6.cfg")])
+                                ("MC_Randomizer.tla", "MC_Randomizer_5.cfg")])
 
 
 def replay(ctx, rp):
